@@ -96,28 +96,17 @@ struct SchedState {
     keep_log: bool,
 }
 
-struct Sched(Arc<Mutex<SchedState>>);
+fn decide(st: &mut SchedState, runnable: &[&Task], current: Option<TaskId>, is_yielding: bool) -> Option<TaskId> {
 
-impl Scheduler for Sched {
-    fn new_execution(&mut self) -> Option<Schedule> {
-        let mut st = self.0.lock().unwrap();
-        if st.executed {
-            None
-        } else {
-            st.executed = true;
-            let _ = similari::verif::take_labels();
-            Some(Schedule::new(0))
-        }
-    }
-
-    fn next_task(
-        &mut self,
-        runnable: &[&Task],
-        current: Option<TaskId>,
-        is_yielding: bool,
-    ) -> Option<TaskId> {
-        let mut st = self.0.lock().unwrap();
         st.sched_calls += 1;
+        // fast path (macro mode): the running task is not at a named point and can continue
+        if st.mode == Mode::Macro && !is_yielding && !st.keep_log {
+            if let Some(c) = current {
+                if runnable.iter().any(|t| t.id() == c) {
+                    return Some(c);
+                }
+            }
+        }
         let labels = similari::verif::take_labels();
         let cur: Option<usize> = current.map(usize::from);
         if let Some(c) = cur {
@@ -207,11 +196,6 @@ impl Scheduler for Sched {
         Some(TaskId::from(chosen))
     }
 
-    fn next_u64(&mut self) -> u64 {
-        0
-    }
-}
-
 #[derive(Clone, Debug)]
 pub enum Outcome<O> {
     Done(O),
@@ -294,17 +278,34 @@ fn shuttle_config(stack: usize, max_steps: usize) -> Config {
     c
 }
 
-/// Run `f` once under the schedule given by `prefix` (then default choices).
-pub fn run_one<O, F>(cfg: &ExploreCfg, prefix: &[usize], f: &Arc<F>) -> Exec<O>
-where
-    O: Send + 'static,
-    F: Fn() -> O + Send + Sync + 'static,
-{
-    install_hook();
-    let st = Arc::new(Mutex::new(SchedState {
+/// One unit of work for a pooled runner: job index (what to run) and schedule prefix (how).
+#[derive(Clone, Debug)]
+pub struct WorkItem {
+    pub job: usize,
+    pub prefix: Vec<usize>,
+    pub cost: usize,
+}
+
+/// Where pooled runners get work from and deliver finished executions to.
+pub trait WorkSource<O>: Sync {
+    /// blocks until work is available; None = no more work ever
+    fn next(&self) -> Option<WorkItem>;
+    fn complete(&self, item: WorkItem, exec: Exec<O>);
+}
+
+struct PoolSched<'a, O> {
+    st: SchedState,
+    src: &'a dyn WorkSource<O>,
+    current: Arc<Mutex<Option<WorkItem>>>,
+    slot: Arc<Mutex<Option<O>>>,
+    cfg: ExploreCfg,
+}
+
+fn fresh_state(cfg: &ExploreCfg, prefix: Vec<usize>) -> SchedState {
+    SchedState {
         mode: cfg.mode,
         window: cfg.window,
-        prefix: prefix.to_vec(),
+        prefix,
         step: 0,
         points: vec![],
         started: vec![],
@@ -315,67 +316,176 @@ where
         sched_calls: 0,
         executed: false,
         keep_log: cfg.keep_log,
-    }));
-    let slot: Arc<Mutex<Option<O>>> = Arc::new(Mutex::new(None));
-    let runner = Runner::new(Sched(st.clone()), shuttle_config(cfg.stack, cfg.max_steps));
-    let f2 = f.clone();
-    let slot2 = slot.clone();
-    set_phase(0);
-    LAST_PANIC.with(|p| *p.borrow_mut() = None);
-    QUIET_PANICS.with(|q| q.set(true));
-    let res = catch_unwind(AssertUnwindSafe(move || {
-        runner.run(move || {
-            let o = f2();
-            *slot2.lock().unwrap() = Some(o);
-        })
-    }));
-    QUIET_PANICS.with(|q| q.set(false));
-    let _ = similari::verif::take_labels();
-    let mut s = st.lock().unwrap();
-    let points = std::mem::take(&mut s.points);
-    let log = std::mem::take(&mut s.log);
+    }
+}
+
+fn finish_exec<O>(st: &mut SchedState, outcome_ok: Option<O>, panic_msg: Option<String>) -> Exec<O> {
+    let points = std::mem::take(&mut st.points);
+    let log = std::mem::take(&mut st.log);
     let choices: Vec<usize> = points.iter().map(|p| p.chosen).collect();
-    let outcome = if let Some(e) = s.error.take() {
+    let outcome = if let Some(e) = st.error.take() {
         Outcome::Machinery(e)
+    } else if let Some(msg) = panic_msg {
+        if msg.contains("deadlock!") {
+            Outcome::Deadlock(msg)
+        } else if msg.contains("exceeded max_steps") {
+            Outcome::StepCap(msg)
+        } else if msg.contains("ExecutionState") || msg.contains("no task was scheduled") {
+            Outcome::Machinery(msg)
+        } else {
+            Outcome::Panic(msg)
+        }
     } else {
-        match res {
-            Ok(_) => match slot.lock().unwrap().take() {
-                Some(o) => {
-                    if s.step < s.prefix.len() {
-                        Outcome::Machinery(format!(
-                            "replay prefix longer than execution: {} of {} used",
-                            s.step,
-                            s.prefix.len()
-                        ))
-                    } else {
-                        Outcome::Done(o)
-                    }
-                }
-                None => Outcome::Machinery("execution produced no observation".into()),
-            },
-            Err(_) => {
-                let msg = LAST_PANIC
-                    .with(|p| p.borrow_mut().take())
-                    .unwrap_or_else(|| "<panic>".into());
-                if msg.contains("deadlock!") {
-                    Outcome::Deadlock(msg)
-                } else if msg.contains("exceeded max_steps") {
-                    Outcome::StepCap(msg)
-                } else if msg.contains("ExecutionState") || msg.contains("no task was scheduled") {
-                    Outcome::Machinery(msg)
+        match outcome_ok {
+            Some(o) => {
+                if st.step < st.prefix.len() {
+                    Outcome::Machinery(format!("replay prefix longer than execution: {} of {} used", st.step, st.prefix.len()))
                 } else {
-                    Outcome::Panic(msg)
+                    Outcome::Done(o)
+                }
+            }
+            None => Outcome::Machinery("execution produced no observation".into()),
+        }
+    };
+    Exec { choices, points, log, sched_calls: st.sched_calls, outcome }
+}
+
+impl<'a, O> PoolSched<'a, O> {
+    fn finalize_previous(&mut self) {
+        let item = self.current.lock().unwrap().take();
+        if let Some(item) = item {
+            let o = self.slot.lock().unwrap().take();
+            let exec = finish_exec(&mut self.st, o, None);
+            self.src.complete(item, exec);
+        }
+    }
+}
+
+impl<'a, O> Scheduler for PoolSched<'a, O> {
+    fn new_execution(&mut self) -> Option<Schedule> {
+        self.finalize_previous();
+        let item = self.src.next()?;
+        self.st = fresh_state(&self.cfg, item.prefix.clone());
+        *self.current.lock().unwrap() = Some(item);
+        let _ = similari::verif::take_labels();
+        set_phase(0);
+        LAST_PANIC.with(|p| *p.borrow_mut() = None);
+        Some(Schedule::new(0))
+    }
+
+    fn next_task(&mut self, runnable: &[&Task], current: Option<TaskId>, is_yielding: bool) -> Option<TaskId> {
+        decide(&mut self.st, runnable, current, is_yielding)
+    }
+
+    fn next_u64(&mut self) -> u64 {
+        0
+    }
+}
+
+/// One OS thread: keep a single shuttle Runner alive over many executions (its continuation pool
+/// is reused, so no stack is mapped / unmapped per execution); a panicking execution ends the
+/// Runner, is recorded, and a new Runner takes over.
+fn worker_loop<O, F>(cfg: &ExploreCfg, f: &Arc<F>, src: &dyn WorkSource<O>)
+where
+    O: Send + 'static,
+    F: Fn(&WorkItem) -> O + Send + Sync + 'static,
+{
+    install_hook();
+    QUIET_PANICS.with(|q| q.set(true));
+    loop {
+        let current: Arc<Mutex<Option<WorkItem>>> = Arc::new(Mutex::new(None));
+        let slot: Arc<Mutex<Option<O>>> = Arc::new(Mutex::new(None));
+        // the scheduler borrows `src`; shuttle wants 'static: erase the lifetime (the Runner never outlives this call)
+        let src_static: &'static dyn WorkSource<O> = unsafe { std::mem::transmute::<&dyn WorkSource<O>, &'static dyn WorkSource<O>>(src) };
+        let sched = PoolSched { st: fresh_state(cfg, vec![]), src: src_static, current: current.clone(), slot: slot.clone(), cfg: cfg.clone() };
+        // keep a handle on the scheduler state for the panic path
+        let shared_sched = Arc::new(Mutex::new(sched));
+        let runner = Runner::new(SharedSched(shared_sched.clone()), shuttle_config(cfg.stack, cfg.max_steps));
+        let (f2, cur2, slot2) = (f.clone(), current.clone(), slot.clone());
+        let res = catch_unwind(AssertUnwindSafe(move || {
+            runner.run(move || {
+                let item = cur2.lock().unwrap().clone().expect("work item set by new_execution");
+                let o = f2(&item);
+                *slot2.lock().unwrap() = Some(o);
+            })
+        }));
+        match res {
+            Ok(_) => break,
+            Err(_) => {
+                let msg = LAST_PANIC.with(|p| p.borrow_mut().take()).unwrap_or_else(|| "<panic>".into());
+                let _ = similari::verif::take_labels();
+                let mut g = shared_sched.lock().unwrap();
+                let item = g.current.lock().unwrap().take();
+                if let Some(item) = item {
+                    let exec = finish_exec::<O>(&mut g.st, None, Some(msg));
+                    src.complete(item, exec);
+                } else {
+                    // panic outside any execution: nothing sensible to attribute it to
+                    QUIET_PANICS.with(|q| q.set(false));
+                    crate::common::machinery_error(&format!("shuttle runner failed outside an execution: {msg}"));
                 }
             }
         }
-    };
-    Exec {
-        choices,
-        points,
-        log,
-        sched_calls: s.sched_calls,
-        outcome,
     }
+    QUIET_PANICS.with(|q| q.set(false));
+}
+
+struct SharedSched<'a, O>(Arc<Mutex<PoolSched<'a, O>>>);
+
+impl<'a, O> Scheduler for SharedSched<'a, O> {
+    fn new_execution(&mut self) -> Option<Schedule> {
+        self.0.lock().unwrap().new_execution()
+    }
+    fn next_task(&mut self, runnable: &[&Task], current: Option<TaskId>, is_yielding: bool) -> Option<TaskId> {
+        self.0.lock().unwrap().next_task(runnable, current, is_yielding)
+    }
+    fn next_u64(&mut self) -> u64 {
+        0
+    }
+}
+
+fn drive<O, F>(cfg: &ExploreCfg, f: Arc<F>, src: &dyn WorkSource<O>, threads: usize)
+where
+    O: Send + 'static,
+    F: Fn(&WorkItem) -> O + Send + Sync + 'static,
+{
+    if threads <= 1 {
+        worker_loop(cfg, &f, src);
+    } else {
+        std::thread::scope(|s| {
+            for _ in 0..threads {
+                let f = f.clone();
+                s.spawn(move || worker_loop(cfg, &f, src));
+            }
+        });
+    }
+}
+
+/// a single execution
+struct OneShot<O> {
+    item: Mutex<Option<WorkItem>>,
+    out: Mutex<Option<Exec<O>>>,
+}
+
+impl<O: Send> WorkSource<O> for OneShot<O> {
+    fn next(&self) -> Option<WorkItem> {
+        self.item.lock().unwrap().take()
+    }
+    fn complete(&self, _item: WorkItem, exec: Exec<O>) {
+        *self.out.lock().unwrap() = Some(exec);
+    }
+}
+
+/// Run `f` once under the schedule given by `prefix` (then default choices).
+pub fn run_one<O, F>(cfg: &ExploreCfg, prefix: &[usize], f: &Arc<F>) -> Exec<O>
+where
+    O: Send + 'static,
+    F: Fn() -> O + Send + Sync + 'static,
+{
+    let src = OneShot { item: Mutex::new(Some(WorkItem { job: 0, prefix: prefix.to_vec(), cost: 0 })), out: Mutex::new(None) };
+    let f2 = f.clone();
+    drive(cfg, Arc::new(move |_: &WorkItem| f2()), &src, 1);
+    src.out.into_inner().unwrap().expect("execution completed")
 }
 
 #[derive(Default, Debug, Clone)]
@@ -388,9 +498,67 @@ pub struct Stats {
     pub bound: usize,
 }
 
-struct Work {
-    prefix: Vec<usize>,
-    cost: usize,
+struct ExploreSrc<'a, O, C: Fn(&Exec<O>) + Sync> {
+    cfg: &'a ExploreCfg,
+    stack: Mutex<Vec<WorkItem>>,
+    cv: Condvar,
+    active: AtomicUsize,
+    execs: AtomicU64,
+    dpoints: AtomicU64,
+    scalls: AtomicU64,
+    maxp: AtomicUsize,
+    truncated: AtomicBool,
+    on_exec: C,
+    _o: std::marker::PhantomData<fn(O)>,
+}
+
+impl<'a, O: Send, C: Fn(&Exec<O>) + Sync> WorkSource<O> for ExploreSrc<'a, O, C> {
+    fn next(&self) -> Option<WorkItem> {
+        let mut g = self.stack.lock().unwrap();
+        loop {
+            let over = self.execs.load(Ordering::Relaxed) >= self.cfg.max_execs || self.cfg.deadline.map_or(false, |d| std::time::Instant::now() > d);
+            if over && !g.is_empty() {
+                self.truncated.store(true, Ordering::Relaxed);
+                g.clear();
+            }
+            if let Some(w) = g.pop() {
+                self.active.fetch_add(1, Ordering::SeqCst);
+                return Some(w);
+            }
+            if self.active.load(Ordering::SeqCst) == 0 {
+                self.cv.notify_all();
+                return None;
+            }
+            g = self.cv.wait(g).unwrap();
+        }
+    }
+
+    fn complete(&self, w: WorkItem, x: Exec<O>) {
+        self.execs.fetch_add(1, Ordering::Relaxed);
+        self.dpoints.fetch_add(x.points.len() as u64, Ordering::Relaxed);
+        self.scalls.fetch_add(x.sched_calls, Ordering::Relaxed);
+        self.maxp.fetch_max(x.points.len(), Ordering::Relaxed);
+        (self.on_exec)(&x);
+        // children: deviate at every later decision point (beyond the prefix all choices were 0)
+        let mut kids: Vec<WorkItem> = vec![];
+        for i in w.prefix.len()..x.points.len() {
+            let p = &x.points[i];
+            let c = w.cost + if p.current_enabled { 1 } else { 0 };
+            if c <= self.cfg.bound {
+                for alt in 1..p.enabled.len() {
+                    let mut pre = x.choices[..i].to_vec();
+                    pre.push(alt);
+                    kids.push(WorkItem { job: 0, prefix: pre, cost: c });
+                }
+            }
+        }
+        {
+            let mut g = self.stack.lock().unwrap();
+            g.extend(kids);
+            self.active.fetch_sub(1, Ordering::SeqCst);
+        }
+        self.cv.notify_all();
+    }
 }
 
 /// Enumerate all schedules of `f` with at most `cfg.bound` preemptions; `on_exec` sees every execution.
@@ -400,113 +568,91 @@ where
     F: Fn() -> O + Send + Sync + 'static,
     C: Fn(&Exec<O>) + Sync,
 {
-    let f = Arc::new(f);
-    let stack: Mutex<Vec<Work>> = Mutex::new(vec![Work {
-        prefix: vec![],
-        cost: 0,
-    }]);
-    let cv = Condvar::new();
-    let active = AtomicUsize::new(0);
-    let execs = AtomicU64::new(0);
-    let dpoints = AtomicU64::new(0);
-    let scalls = AtomicU64::new(0);
-    let maxp = AtomicUsize::new(0);
-    let truncated = AtomicBool::new(false);
-    let threads = cfg.threads.max(1);
-    std::thread::scope(|s| {
-        for _ in 0..threads {
-            s.spawn(|| loop {
-                let w = {
-                    let mut g = stack.lock().unwrap();
-                    loop {
-                        if let Some(w) = g.pop() {
-                            active.fetch_add(1, Ordering::SeqCst);
-                            break Some(w);
-                        }
-                        if active.load(Ordering::SeqCst) == 0 {
-                            cv.notify_all();
-                            break None;
-                        }
-                        g = cv.wait(g).unwrap();
-                    }
-                };
-                let Some(w) = w else { break };
-                let over = execs.load(Ordering::Relaxed) >= cfg.max_execs
-                    || cfg
-                        .deadline
-                        .map_or(false, |d| std::time::Instant::now() > d);
-                if over {
-                    truncated.store(true, Ordering::Relaxed);
-                    active.fetch_sub(1, Ordering::SeqCst);
-                    cv.notify_all();
-                    continue;
-                }
-                let x = run_one(cfg, &w.prefix, &f);
-                execs.fetch_add(1, Ordering::Relaxed);
-                dpoints.fetch_add(x.points.len() as u64, Ordering::Relaxed);
-                scalls.fetch_add(x.sched_calls, Ordering::Relaxed);
-                maxp.fetch_max(x.points.len(), Ordering::Relaxed);
-                on_exec(&x);
-                // children: deviate at every later decision point
-                let mut kids: Vec<Work> = vec![];
-                let mut cost = w.cost;
-                for i in w.prefix.len()..x.points.len() {
-                    let p = &x.points[i];
-                    // cost so far counts preemptions strictly before i (beyond the prefix all choices are 0)
-                    let c = cost + if p.current_enabled { 1 } else { 0 };
-                    if c <= cfg.bound {
-                        for alt in 1..p.enabled.len() {
-                            let mut pre = x.choices[..i].to_vec();
-                            pre.push(alt);
-                            kids.push(Work {
-                                prefix: pre,
-                                cost: c,
-                            });
-                        }
-                    }
-                    let _ = &mut cost;
-                }
-                {
-                    let mut g = stack.lock().unwrap();
-                    g.extend(kids);
-                    active.fetch_sub(1, Ordering::SeqCst);
-                }
-                cv.notify_all();
-            });
-        }
-    });
+    let src = ExploreSrc {
+        cfg,
+        stack: Mutex::new(vec![WorkItem { job: 0, prefix: vec![], cost: 0 }]),
+        cv: Condvar::new(),
+        active: AtomicUsize::new(0),
+        execs: AtomicU64::new(0),
+        dpoints: AtomicU64::new(0),
+        scalls: AtomicU64::new(0),
+        maxp: AtomicUsize::new(0),
+        truncated: AtomicBool::new(false),
+        on_exec,
+        _o: std::marker::PhantomData,
+    };
+    drive(cfg, Arc::new(move |_: &WorkItem| f()), &src, cfg.threads.max(1));
     Stats {
-        executions: execs.load(Ordering::Relaxed),
-        decision_points: dpoints.load(Ordering::Relaxed),
-        max_points: maxp.load(Ordering::Relaxed),
-        sched_calls: scalls.load(Ordering::Relaxed),
-        truncated: truncated.load(Ordering::Relaxed),
+        executions: src.execs.load(Ordering::Relaxed),
+        decision_points: src.dpoints.load(Ordering::Relaxed),
+        max_points: src.maxp.load(Ordering::Relaxed),
+        sched_calls: src.scalls.load(Ordering::Relaxed),
+        truncated: src.truncated.load(Ordering::Relaxed),
         bound: cfg.bound,
     }
 }
 
-/// Sequential engines: run `f` inside the shuttle runtime under the deterministic default
-/// schedule (keep the running task while it can run, else the lowest runnable id).
-pub fn in_shuttle<O, F>(f: F) -> Result<O, String>
-where
-    O: Send + 'static,
-    F: Fn() -> O + Send + Sync + 'static,
-{
-    let cfg = ExploreCfg {
+struct JobsSrc<O> {
+    n: usize,
+    next: AtomicUsize,
+    out: Mutex<Vec<Option<Result<O, String>>>>,
+}
+
+impl<O: Send> WorkSource<O> for JobsSrc<O> {
+    fn next(&self) -> Option<WorkItem> {
+        let i = self.next.fetch_add(1, Ordering::Relaxed);
+        if i < self.n {
+            Some(WorkItem { job: i, prefix: vec![], cost: 0 })
+        } else {
+            None
+        }
+    }
+    fn complete(&self, item: WorkItem, exec: Exec<O>) {
+        let r = match exec.outcome {
+            Outcome::Done(o) => Ok(o),
+            Outcome::Panic(m) => Err(format!("panic: {m}")),
+            Outcome::Deadlock(m) => Err(format!("deadlock: {m}")),
+            Outcome::StepCap(m) => Err(format!("step cap: {m}")),
+            Outcome::Machinery(m) => Err(format!("machinery: {m}")),
+        };
+        self.out.lock().unwrap()[item.job] = Some(r);
+    }
+}
+
+fn seq_cfg() -> ExploreCfg {
+    ExploreCfg {
         mode: Mode::Macro,
         window: (1, 0), // empty window: never branch
         bound: 0,
         max_steps: usize::MAX / 4,
         ..Default::default()
-    };
-    let x = run_one(&cfg, &[], &Arc::new(f));
-    match x.outcome {
-        Outcome::Done(o) => Ok(o),
-        Outcome::Panic(m) => Err(format!("panic: {m}")),
-        Outcome::Deadlock(m) => Err(format!("deadlock: {m}")),
-        Outcome::StepCap(m) => Err(format!("step cap: {m}")),
-        Outcome::Machinery(m) => Err(format!("machinery: {m}")),
     }
+}
+
+/// Sequential engines: run jobs `0..n` each inside the shuttle runtime under the deterministic
+/// default schedule (keep the running task while it can run, else the lowest runnable id), on a
+/// pool of OS threads. Results in job order.
+pub fn run_jobs<O, F>(n: usize, f: F) -> Vec<Result<O, String>>
+where
+    O: Send + 'static,
+    F: Fn(usize) -> O + Send + Sync + 'static,
+{
+    let cfg = seq_cfg();
+    let src = JobsSrc { n, next: AtomicUsize::new(0), out: Mutex::new((0..n).map(|_| None).collect()) };
+    drive(&cfg, Arc::new(move |w: &WorkItem| f(w.job)), &src, cfg.threads.min(n.max(1)));
+    src.out.into_inner().unwrap().into_iter().map(|r| r.unwrap_or_else(|| Err("machinery: job not executed".into()))).collect()
+}
+
+/// One closure inside the shuttle runtime under the default schedule.
+pub fn in_shuttle<O, F>(f: F) -> Result<O, String>
+where
+    O: Send + 'static,
+    F: Fn() -> O + Send + Sync + 'static,
+{
+    let cfg = seq_cfg();
+    let src = JobsSrc { n: 1, next: AtomicUsize::new(0), out: Mutex::new(vec![None]) };
+    drive(&cfg, Arc::new(move |_: &WorkItem| f()), &src, 1);
+    src.out.into_inner().unwrap().pop().unwrap().unwrap_or_else(|| Err("machinery: job not executed".into()))
 }
 
 /// Drop guard for objects that own shuttle threads: skip the destructor while unwinding, so a
